@@ -63,7 +63,12 @@ Record Inv (s : pstate) : Prop := {
   i_inj : 0 < pinj s -> (exists v, wact (W s v) = true) \/ pmain s = MIdle \/ exists a, pmain s = MAct a;
   i_sum : (pmsg s + sumc (pws s) = pnet s)%Z;
   i_pan : ppanic s = 0;
-  i_reads : forall m n, In (m, n) (preads s) -> m = n
+  i_reads : forall m n, In (m, n) (preads s) -> m = n;
+  (* progress clauses: a wake-up that is needed is on its way *)
+  i_wake : forall v, wact (W s v) = true -> parkish (wpc (W s v)) = true ->
+           wtok (W s v) = true \/ (exists x, wpc (W s x) = WUnpark v) \/ pmain s = MUnpark v;
+  i_mwake : pmain s = MPark -> (forall v, wact (W s v) = false) ->
+            pmtok s = true \/ exists x, wpc (W s x) = WPost [BUnparkMain; BPark]
 }.
 
 (* ---- list facts ---- *)
